@@ -19,6 +19,7 @@ import (
 	"errors"
 	"fmt"
 	"math/rand"
+	"strings"
 	"time"
 
 	wrapping "github.com/hashicorp/go-kms-wrapping/v2"
@@ -727,6 +728,72 @@ func enrollCaseBody(c *engine.Ctx, ec enrollCase) {
 		return
 	}
 	r.Count("client_tls_configs", int64(len(cfgsTLS)))
+	// with the options an application passes when dialing (state, extra protocols) there must still be
+	// one configuration per chain that is valid now, each naming its own chain's root in the
+	// certificate-preference entry and carrying the extra protocols unchanged
+	{
+		now := time.Now()
+		want := map[string]bool{}
+		for _, b := range stored.CertificateBundles {
+			leaf, e1 := x509.ParseCertificate(b.CertificateDer)
+			ca, e2 := x509.ParseCertificate(b.CaCertificateDer)
+			if e1 != nil || e2 != nil || now.Before(leaf.NotBefore) || now.After(leaf.NotAfter) || now.Before(ca.NotBefore) || now.After(ca.NotAfter) {
+				continue
+			}
+			if pk, err := x509.MarshalPKIXPublicKey(ca.PublicKey); err == nil {
+				if id, err := nodeenrollment.KeyIdFromPkix(pk); err == nil {
+					want[id] = true
+				}
+			}
+		}
+		for k := 0; k <= 3; k++ {
+			extras := []string{"app-1", "app-2", "app-3"}[:k]
+			opts := []nodeenrollment.Option{nodeenrollment.WithState(enrollStruct("nested", ec.Salt+int64(k)))}
+			if k > 0 {
+				opts = append(opts, nodeenrollment.WithExtraAlpnProtos(extras))
+			}
+			cfgs2, err := nodetls.ClientConfigs(s.Ctx, stored, opts...)
+			if err != nil {
+				viol("no-client-tls-config", fmt.Sprintf("ClientConfigs with state and %d extra protocols fails: %v", k, err))
+				break
+			}
+			got := map[string]int{}
+			extrasOK := true
+			for _, cfg := range cfgs2 {
+				var rest []string
+				for _, e := range cfg.NextProtos {
+					switch {
+					case strings.HasPrefix(e, nodeenrollment.CertificatePreferenceV1Prefix):
+						got[strings.TrimPrefix(e, nodeenrollment.CertificatePreferenceV1Prefix)]++
+					case !strings.HasPrefix(e, nodeenrollment.AuthenticateNodeNextProtoV1Prefix):
+						rest = append(rest, e)
+					}
+				}
+				if len(rest) != len(extras) {
+					extrasOK = false
+				}
+				for i := range rest {
+					if i < len(extras) && rest[i] != extras[i] {
+						extrasOK = false
+					}
+				}
+			}
+			covered := len(got) == len(want) && len(cfgs2) == len(want)
+			for id := range want {
+				if got[id] != 1 {
+					covered = false
+				}
+			}
+			switch {
+			case !covered:
+				viol("client-configs-do-not-cover-each-valid-chain", fmt.Sprintf("with state and %d extra protocols the %d client configurations name the roots %v, the valid chains are under %d roots", k, len(cfgs2), got, len(want)))
+			case !extrasOK:
+				viol("client-configs-extra-protocols-differ", fmt.Sprintf("with %d extra protocols a client configuration does not carry exactly those protocols", k))
+			default:
+				r.Count(fmt.Sprintf("client_configs_with_options_cover_%d_valid_chains", len(want)), 1)
+			}
+		}
+	}
 
 	// ---- a real handshake -------------------------------------------------------
 	lw, err := world.NewLW(s, world.LWCfg{})
@@ -890,6 +957,7 @@ func runEnroll(c *engine.Ctx) engine.Result {
 	for _, k := range []string{"none", "handler-default", "explicit-nil"} {
 		r.Require("token_state_vs_fetch_option:"+k, int64(perFlow[world.FlowToken])/3/6)
 	}
+	r.Require("client_configs_with_options_cover_2_valid_chains", n/4)
 	r.Require("responses_opened", n)
 	r.Require("certificates_parsed", 2*n)
 	r.Require("wrong_keys_tried", 7*n)
